@@ -17,14 +17,14 @@ STORE_ASSUMPTIONS = [
 
 def mc_job(name, scenario, size='s', maxanns=3, maxres=1, prelude=0, workers=8, timeout=1500, **kw):
     c = dict(MaxRes=maxres, MaxSets=1, MaxAnns=maxanns, MaxData=2, MaxKeys=2, Depth=100, Scenario=scenario, Size=size,
-             Prelude=prelude, DevShift=False)
+             Prelude=prelude, Reads=[], DevShift=False)
     c.update(kw)
     return dict(kind='mc', name=name, module='MC_Store.tla', constants=c, invariants=STORE_INVS, properties=['Monotone'],
                 constraint='Bounded', view='View', workers=workers, timeout=timeout)
 
 
-def gen_job(name, scenario, prelude, depth=None, simulate=None, simdepth=None, size='s', style=0, **kw):
-    c = dict(Scenario=scenario, Prelude=prelude, Size=size)
+def gen_job(name, scenario, prelude, depth=None, simulate=None, simdepth=None, size='s', style=0, reads=(), **kw):
+    c = dict(Scenario=scenario, Prelude=prelude, Size=size, Reads=list(reads))
     c.update(kw)
     return dict(kind='store_gen', name=name, constants=c, depth=depth, simulate=simulate, simdepth=simdepth, style=style)
 
@@ -33,15 +33,20 @@ def store_jobs(prop, tier, seed):
     style = seed % 5
     quick = tier == 'quick'
     jobs = []
+    reads = {'C03': ['lookup'], 'C04': ['offsets'], 'C12': ['bytes']}.get(prop, [])
+    light = {'C03': ['lookup'], 'C04': ['anntext'], 'C12': ['bytes']}.get(prop, [])
+    big = dict(MaxAnns=10, MaxRes=3, MaxData=4)
     if quick:
         jobs.append(mc_job('mc_complex_small', 'complex', maxanns=2))
         jobs += [gen_job('core_p1', 'core', 1, depth=2, style=style),
-                 gen_job('complex_p2', 'complex', 2, depth=2, style=style),
+                 gen_job('complex_p2', 'complex', 2, depth=2, style=style, reads=light),
                  gen_job('remove_p4', 'remove', 4, depth=3, style=style),
-                 gen_job('remove_p3', 'remove', 3, depth=3, style=(style + 1) % 5),
+                 gen_job('remove_p5', 'remove', 5, depth=2, style=(style + 1) % 5, reads=light, **big),
+                 gen_job('remove_p6', 'remove', 6, depth=2, style=(style + 1) % 5, reads=light, **big),
+                 gen_job('all_p5', 'all', 5, depth=1, style=(style + 2) % 5, reads=reads, **big),
+                 gen_job('all_p6', 'all', 6, depth=1, style=(style + 3) % 5, reads=reads, **big),
                  gen_job('fail_p2', 'fail', 2, depth=2, style=style),
-                 gen_job('all_p4', 'all', 4, depth=1, style=(style + 2) % 5),
-                 gen_job('sim_all', 'all', 1, simulate=12, simdepth=6, size='m', style=style, MaxAnns=6, MaxData=4, MaxRes=2)]
+                 gen_job('sim_all', 'all', 1, simulate=12, simdepth=6, size='m', style=style, reads=light, MaxAnns=6, MaxData=4, MaxRes=2)]
     else:
         jobs.append(mc_job('mc_complex', 'complex', maxanns=3))
         jobs.append(mc_job('mc_core', 'core', maxanns=2, size='m'))
@@ -49,13 +54,21 @@ def store_jobs(prop, tier, seed):
         jobs += [gen_job('core_p1', 'core', 1, depth=3, style=style),
                  gen_job('complex_p1', 'complex', 1, depth=3, style=style),
                  gen_job('complex_p2', 'complex', 2, depth=3, style=(style + 1) % 5),
+                 gen_job('complex_p2r', 'complex', 2, depth=2, style=(style + 1) % 5, reads=light),
                  gen_job('remove_p4', 'remove', 4, depth=5, style=style),
+                 gen_job('remove_p4r', 'remove', 4, depth=3, style=style, reads=light),
                  gen_job('remove_p3', 'remove', 3, depth=5, style=(style + 1) % 5),
+                 gen_job('remove_p5', 'remove', 5, depth=3, style=(style + 1) % 5, reads=light, **big),
+                 gen_job('remove_p6', 'remove', 6, depth=3, style=(style + 2) % 5, reads=light, **big),
                  gen_job('all_p3', 'all', 3, depth=2, style=(style + 1) % 5),
                  gen_job('all_p4', 'all', 4, depth=2, style=(style + 2) % 5),
+                 gen_job('all_p5', 'all', 5, depth=2, style=(style + 3) % 5, **big),
+                 gen_job('all_p6', 'all', 6, depth=2, style=(style + 4) % 5, **big),
+                 gen_job('all_p5r', 'all', 5, depth=1, style=style, reads=reads, **big),
+                 gen_job('all_p6r', 'all', 6, depth=1, style=style, reads=reads, **big),
                  gen_job('fail_p2', 'fail', 2, depth=3, style=style),
                  gen_job('fail_p4', 'fail', 4, depth=2, style=(style + 3) % 5),
-                 gen_job('sim_all', 'all', 1, simulate=200, simdepth=10, size='m', style=(style + 3) % 5, MaxAnns=8, MaxData=4,
+                 gen_job('sim_all', 'all', 1, simulate=200, simdepth=10, size='m', style=(style + 3) % 5, reads=light, MaxAnns=8, MaxData=4,
                          MaxRes=2)]
     return jobs
 
@@ -68,7 +81,7 @@ STORE_RULE = ('behaviours are emitted by TLC from MC_Store.tla (every behaviour 
 def plan_for(prop, tier, seed, replay_file=None):
     if replay_file:
         return dict(jobs=[dict(kind='replay_file', file=replay_file)], rule='replay of a saved counterexample')
-    if prop in ('C01', 'C02', 'C03', 'C10', 'C14'):
+    if prop in ('C01', 'C02', 'C03', 'C04', 'C10', 'C12', 'C14'):
         return dict(jobs=store_jobs(prop, tier, seed), rule=STORE_RULE, assumptions=STORE_ASSUMPTIONS)
     raise ToolError('no plan for ' + prop)
 
